@@ -16,10 +16,10 @@ from vt.explore import Outcome, explore, Chooser, h64
 PROPERTY = 'C12'
 LEVEL = 'model_checking'
 
-PROGRAMS = ['plain', 'failing', 'ctx', 'sess_ok', 'sess_exc', 'twice']
+PROGRAMS = ['plain', 'failing', 'ctx', 'sess_ok', 'sess_exc', 'twice', 'sess_twice']
 # programs in which the with-statement / try-finally of a *well-behaved* client
 # covers the whole hold, so cancelling anywhere is the pool's responsibility
-CANCEL_ANYWHERE = {'ctx', 'sess_ok', 'sess_exc'}
+CANCEL_ANYWHERE = {'ctx', 'sess_ok', 'sess_exc', 'sess_twice'}
 
 
 def _imports():
@@ -206,26 +206,30 @@ def client(w, i, key, program):
                         c.close()
                     finally:
                         gave(c)
-            elif program in ('sess_ok', 'sess_exc'):
-                S = make_session_class()
-                session = S(pool)
-                c = None
-                try:
-                    with session:
-                        st[i] = 'acquiring'
-                        c = yield from session._acquire_connection(
-                            host, port, False, False)
-                        took(c)
-                        st[i] = 'connecting'
-                        yield from c.connect()
-                        yield from hold()
-                        if program == 'sess_exc':
-                            raise KeyError('client-side failure')
-                except (KeyError, NetworkError):
-                    pass
-                finally:
-                    if c is not None:
-                        gave(c)
+            elif program in ('sess_ok', 'sess_exc', 'sess_twice'):
+                # 'sess_twice': two sessions one after the other in one client, the way a
+                # crawler worker issues request after request: the second acquire finds the
+                # first session's deferred check-in (no_wait_release) still pending
+                for rnd in range(2 if program == 'sess_twice' else 1):
+                    S = make_session_class()
+                    session = S(pool)
+                    c = None
+                    try:
+                        with session:
+                            st[i] = 'acquiring'
+                            c = yield from session._acquire_connection(
+                                host, port, False, False)
+                            took(c)
+                            st[i] = 'connecting'
+                            yield from c.connect()
+                            yield from hold('s%d' % rnd if rnd else '')
+                            if program == 'sess_exc':
+                                raise KeyError('client-side failure')
+                    except (KeyError, NetworkError):
+                        pass
+                    finally:
+                        if c is not None:
+                            gave(c)
             st[i] = 'done'
         except asyncio.CancelledError:
             st[i] = 'cancelled'
